@@ -118,7 +118,7 @@ func genSites(repo, out string) {
 			b.WriteString(";\n   ")
 		}
 		fmt.Fprintf(&b, "(%s, %s, %s, %s, %d%%N) (* %s | %s | %s | %s *)", coqBytes(s.file), coqBytes(s.fn), coqBytes(s.kind), coqBytes(s.expr), counts[s],
-			s.file, s.fn, s.kind, strings.ReplaceAll(strings.ReplaceAll(s.expr, "*)", "* )"), "\"", "'"))
+			s.file, s.fn, s.kind, strings.ReplaceAll(strings.ReplaceAll(strings.ReplaceAll(s.expr, "*)", "* )"), "(*", "( *"), "\"", "'"))
 	}
 	b.WriteString("].\n")
 	write(filepath.Join(out, "GenSites.v"), b.String())
